@@ -44,6 +44,12 @@ reg('C07', 'harness.hist', design_ref='6/C07',
 reg('C15', 'harness.hist', design_ref='6/C15',
     bounds={'quick': 'as C01 quick', 'thorough': 'as C01 thorough'}, outside='longer histories',
     stubs=HIST_STUBS, assumptions=HIST_ASSUME, expect_labels=['C15:counters', 'C15:sum', 'C15:size'])
+reg('C08', 'harness.sync', design_ref='6/C08',
+    bounds={'quick': 'every sequence of 4 operations from the 15-operation alphabet {c[k]=v, del c[k], c.pop(k), a[k]=v, del a[k], dump(), dump(k), load(), load(k), sync(), sync(clear=True), archived(False), archived(True), open(b), drop()} with symbolic keys and values, on cache+dict_archive and cache+null_archive',
+            'thorough': 'every sequence of 5 operations, same alphabet'},
+    outside='longer sequences; file/dir/sql archives behind the cache (their dict refinement is C03); dump/load with several key arguments at once',
+    stubs=[], assumptions=['keys and values are opaque atoms (arbitrary hashable objects)', 'drop()/archived(True) with no archive at all may raise ValueError (the statement does not forbid it)'],
+    expect_labels=['C08:memory', 'C08:archive', 'C08:flag', 'C08:null-empty'])
 
 _T = 'bounded symbolic execution of the real code (ksym proxies on CPython), branch and obligation queries decided by z3, closed path tree, concrete replay of counterexamples'
 _N = 'trusted: CPython, z3 5.1, the ksym proxies (constant hash + solver-decided equality) and the listed stubs; atoms stand for arbitrary hashable non-fast-type objects; bounds as in evidence.coverage.bounds; no claim outside them'
@@ -53,9 +59,10 @@ TEXT = {
     'C05': {'level': 'within the history bounds and for every maxsize >= 1 (plus 0/None, positional or keyword), size after each call <= max(maxsize, size before) is z3-valid on every path; includes bulk load() pre-population', 'note': _N, 'technique': _T},
     'C06': {'level': 'within the history bounds and for every maxsize >= 1, the set of entries that leave the real cache on each call equals the reference policy victim set computed from the statement (all RR choices explored through a symbolic random.choice)', 'note': _N, 'technique': _T},
     'C07': {'level': 'within the history bounds, every entry leaving the real memory cache is in the real archive with an equal value, archived entries never change, and every computed result stays retrievable', 'note': _N, 'technique': _T},
+    'C08': {'level': 'for every sequence of operations within the bound and every equality pattern of keys/values, the real cache, both real archive objects and archived() equal the three-dict oracle written from the statement after every step', 'note': _N, 'technique': _T},
     'C15': {'level': 'within the history bounds (calls interleaved with dump/load/clear/toggle), info() equals ground-truth counters derived from before/after snapshots of memory and archive', 'note': _N, 'technique': _T},
 }
 NOT_APPLICABLE = [
     {'property_id': p, 'reason': 'check not built yet in this session (planned in DESIGN.md §6); nothing is claimed for it so far'}
-    for p in ['C03', 'C04', 'C08', 'C09', 'C10', 'C11', 'C12', 'C13', 'C14', 'C16', 'C17', 'C18', 'C19', 'C20']
+    for p in ['C03', 'C04', 'C09', 'C10', 'C11', 'C12', 'C13', 'C14', 'C16', 'C17', 'C18', 'C19', 'C20']
 ]
